@@ -183,7 +183,34 @@ def _safe_expand(zdir, qtext):
         return ("raised", f"{type(e).__name__}: {e}")
 
 
+def _run_case_from_sub(ctx, case) -> F.Outcome:
+    """The same case with the process's working directory inside the notes directory, in a
+    sub-directory that has a zoq/ of its own (a decoy `qa`, and a `nosuch` that exists only there):
+    saved queries are looked up under <notes directory>/zoq, wherever the command is started."""
+    import os
+
+    ix = _index().private_copy()
+    proj = ix.zdir / "proj" / "zoq"
+    proj.mkdir(parents=True, exist_ok=True)
+    (proj / "qa.zoq").write_text("# W +nosuchproject\n")
+    (proj / "nosuch.zoq").write_text("# W #t1\n")
+    (proj / "outer.zoq").write_text("# W #t1\n")
+    old = os.getcwd()
+    os.chdir(proj.parent)
+    try:
+        res = _run_case(ctx, case[1:])
+    finally:
+        os.chdir(old)
+    if not res.ok:
+        res.detail["started_from"] = "<notes directory>/proj (which has a zoq/ directory of its own)"
+    if res.nontrivial:
+        res.nontrivial = H.digest(case)
+    return res
+
+
 def _run_case(ctx, case) -> F.Outcome:
+    if case[0] == "from-sub":
+        return _run_case_from_sub(ctx, case)
     expand_saved_queries = _safe_expand
 
     kind = case[0]
@@ -460,6 +487,12 @@ def _cases(ctx):
     for qi in range(len(SUBDIR_QUERIES)):
         for style in ((0, 1, 2, 3) if not ctx.quick else (qi % 4, (qi + 2) % 4)):
             cases.append(["subdir", qi, style])
+    for qi in range(nq):
+        cases.append(["from-sub", "ref", qi % na, (qi * 3) % nb, (qi * 5) % nc, qi % 4, qi])
+    for qtext in ("W {nosuch}", "W {qb} {nosuch}", "W {outer}"):
+        cases.append(["from-sub", "missing", qtext])
+    for qi in range(len(SUBDIR_QUERIES)):
+        cases.append(["from-sub", "subdir", qi, qi % 4])
     for fi, form in enumerate(("symlink", "dotdot", "double-slash")):
         for qi in range(nq):
             cases.append(["zdirform", form, "ref", (qi + fi) % na, (qi * 3 + fi) % nb, (qi * 5 + fi) % nc, (qi + fi) % 4, qi])
@@ -472,6 +505,8 @@ def _cases(ctx):
 
 
 def _sample(ctx, case):
+    if case[0] == "from-sub":
+        return dict(_sample(ctx, case[1:]), started_from="<notes directory>/proj")
     if case[0] == "subdir":
         return {"saved": {n: wrap(render_with_refs(c), case[2]) for n, c in SUBDIR_ENV.items()},
                 "query": "W " + render_with_refs(SUBDIR_QUERIES[case[1]][1])}
